@@ -84,7 +84,7 @@ def build(case):
            # output layer = head's last linear: in_features = last hidden size (+1 bias) <= 40 parameters
            "head_config": {"hidden_size": list(case["head"]), "min_mlp_nodes": 2, "max_mlp_nodes": 39, "activation": case["activation"]}}
     cls = NeuralUCB if case["algo"] == "NeuralUCB" else NeuralTS
-    return cls(obs, act, net_config=net, hp_config=ag.make_hp_config(case["algo"]), lamb=case["lamb"], gamma=case["gamma"],
+    return cls(obs, act, net_config=net, hp_config=_hp_config(case), lamb=case["lamb"], gamma=case["gamma"],
                batch_size=4, lr=1e-2, learn_step=1)
 
 
@@ -156,6 +156,15 @@ def carry_over(S, old_layout, new_layout):
 
 def rel_err(a, b):
     return float(np.abs(a - b).max() / max(np.abs(b).max(), 1e-300))
+
+
+def _hp_config(case):
+    """lr and batch_size as usual; in half of the cases the regulariser lambda is a mutable RL hyper-parameter too (it is a plain
+    constructor argument / attribute of the bandits, so a HyperparameterConfig may list it)"""
+    spec = {"lr": [1e-4, 1e-1, 0.8, 1.2, "float"], "batch_size": [2, 8, 0.8, 1.2, "int"]}
+    if case.get("lamb_mutable"):
+        spec = {"lamb": [0.05, 20.0, 0.5, 2.0, "float"], "lr": [1e-4, 1e-1, 0.8, 1.2, "float"]}
+    return ag.make_hp_config(case["algo"], spec)
 
 
 class Ref:
@@ -353,11 +362,14 @@ def run_history(case, ctx):
                 if is_scaled_identity(m):
                     if ref.n:
                         ctx.label("reinitialisation-recognised-after-decisions")
-                    ref = Ref(lam, P)
+                    # a fresh matrix is the inverse of (current lambda) * I: an RL-hyperparameter mutation may have moved lambda
+                    if float(agent.lamb) != ref.lam:
+                        ctx.label("lambda-mutated-before-reinitialisation")
+                    ref = Ref(float(agent.lamb), P)
                 elif not resized and np.array_equal(m, before.double().numpy()):
                     ctx.label("matrix-carried-over-mutation")
                 else:
-                    carried = Ref(lam, P)
+                    carried = Ref(ref.lam, P)
                     carried.S, carried.n = carry_over(ref.S, old_layout, new_layout), ref.n
                     if rel_err(m, carried.inv_stmt()) <= REL or rel_err(m, carried.inv_swapped()) <= REL:
                         ctx.label("matrix-carried-over-resize")
@@ -459,7 +471,7 @@ def case_strategy(draw, tier):
     length = draw(st.one_of(st.integers(0, 25), st.integers(8, 25)))
     lam = draw(st.one_of(st.just(1.0), st.sampled_from(LAMBDAS), st.sampled_from(LAMBDAS),
                          st.integers(10, 1000).map(lambda i: i / 100.0)))
-    return {"algo": draw(st.sampled_from(ALGOS)), "dim": draw(st.integers(1, 6)), "arms": arms, "lamb": lam,
+    return {"lamb_mutable": draw(st.booleans()), "algo": draw(st.sampled_from(ALGOS)), "dim": draw(st.integers(1, 6)), "arms": arms, "lamb": lam,
             "gamma": draw(st.sampled_from(GAMMAS)), "head": draw(st.sampled_from([[4], [8], [12], [8, 6], [20]])),
             "activation": draw(st.sampled_from(ACTIVATIONS)), "seed": draw(st.integers(0, 9999)),
             "ops": [list(o) for o in draw(st.lists(op, min_size=length // 2, max_size=length))]}
